@@ -328,6 +328,7 @@ fn check_len(case: &LenCase, ctx: &mut Ctx) -> Result<(), Fail> {
 pub fn property() -> Property {
     Property {
         id: "C15",
+        quick_mult: 60,
         rule: "binary label vectors of length 1..200 at every balance (independent positive rates 0..100% for truth and prediction), multi-class labels for accuracy, scores continuous / 3-valued / 12-valued / constant / pre-sorted, real targets at scales 1e-6..1e6 with optional offset, cluster labellings with 1..8 classes and arbitrary integer values in layouts random / identical-up-to-renaming / exact product / refinement. non-trivial = both classes present and a predicted positive (counts), ties with >= 2 distinct scores (AUC), >= 3 points and non-degenerate y_true (regression), >= 2 classes on both sides (cluster); distinct = distinct serialised case",
         assumptions: vec![
             "0/0 cases of the definitions (no predicted positive for precision, no positive for recall / AUC, constant y_true for R^2) are generated but only required not to panic".into(),
